@@ -831,6 +831,26 @@ func c14Batch(c *fw.Ctx) error {
 						}
 						// expected etree-json: [tag, attrs, text, children]
 						items = append(items, item{Kind: "xml", Text: out, Want: c14XMLWant(attr, t, rep), ID: id, Src: doc.JSON()})
+						if indent == 2 {
+							// the operators use the configured preferences: to_xml must write what the encoder writes, from_xml read what the decoder reads
+							saved := yqlib.ConfiguredXMLPreferences
+							yqlib.ConfiguredXMLPreferences.AttributePrefix, yqlib.ConfiguredXMLPreferences.ContentName = pv[0], pv[1]
+							opOut, _, opErr := c14EvalStr("to_xml", vNode(doc))
+							var backV string
+							if parsed, perr, _ := impl.Parse("to_xml | from_xml"); perr == nil {
+								if res, eerr, epan := impl.Eval(parsed, vNode(doc)); eerr == nil && epan == nil && len(res) == 1 {
+									backV = c14LuaNormal(textV(res[0])).String()
+								}
+							}
+							yqlib.ConfiguredXMLPreferences = saved
+							if opErr != nil || strings.TrimSpace(opOut) != strings.TrimSpace(out) {
+								c.Violation("xml/operator/to_xml-differs-from-encoder", int64(id), c14Case{Format: "xml", Dir: "operator", Data: doc.JSON(), Prefs: pv[0] + "|" + pv[1]},
+									fmt.Sprintf("with attribute prefix %q and content name %q, to_xml gives %q (%v), the encoder %q", pv[0], pv[1], opOut, opErr, out))
+							} else if want := c14LuaNormal(c14XMLDecoded(doc, t)).String(); backV != want {
+								c.Violation("xml/operator/to_xml-from_xml", int64(id), c14Case{Format: "xml", Dir: "operator", Data: doc.JSON(), Prefs: pv[0] + "|" + pv[1]},
+									fmt.Sprintf("with attribute prefix %q and content name %q, to_xml | from_xml gives %s, expected %s", pv[0], pv[1], backV, want))
+							}
+						}
 					}
 					// XML decode: own writer -> yq decoder -> compare with the expected mapping
 					xmlText := c14XMLWrite(attr, t, rep)
